@@ -303,6 +303,31 @@ def run(ctx):
                         ctx.violation({"channel": ch, "entry": entry, "iface": iface, "noise": repr(raw[:80])},
                                       "a value, an HTTP 4xx, client-disconnect or stream-consumed", detail,
                                       "%s via %s (%s): %s escapes" % (ch, entry, iface, detail))
+        # keys the specifications make optional left out by the server: QUERY_STRING (PEP 3333: "may be empty or absent"), the
+        # query_string / root_path / client / server of an ASGI scope - every accessor still returns a value
+        import baize.wsgi as W
+        import baize.asgi as A
+        for iface in ("wsgi", "asgi"):
+            for missing in (("QUERY_STRING",), ("CONTENT_TYPE",), ("REMOTE_ADDR", "REMOTE_PORT")) if iface == "wsgi" else \
+                    (("query_string",), ("root_path",), ("client",), ("server",), ("query_string", "root_path", "client", "server")):
+                req = servers.Req(path="/page", headers=[("Host", "example.com")])
+                src = servers.make_environ(req) if iface == "wsgi" else servers.make_scope(req)
+                for k in missing:
+                    src.pop(k, None)
+                r = (W if iface == "wsgi" else A).Request(src)
+                for entry in ("query_params", "url", "client", "content_type", "cookies", "accepted_types"):
+                    ctx.count()
+                    try:
+                        v = getattr(r, entry)
+                        if entry == "url":
+                            str(v), v.path, v.query
+                        cls, detail = "value", None
+                    except BaseException as e:  # noqa
+                        cls, detail = classify(e)
+                    if cls == "escape":
+                        ctx.violation({"iface": iface, "keys_left_out_by_the_server": list(missing), "entry": entry}, "a value", detail,
+                                      "request.%s (%s) with the optional %s left out: %s escapes" % (entry, iface, "/".join(missing), detail))
+                    ctx.nontriv(("optional-key", iface, missing, entry))
     finally:
         shutil.rmtree(world.env.dir, True)
     if seen_escape:
